@@ -161,8 +161,11 @@ def write_evidence(prop, tier, level, results, wall_s, extra_cov=None, assumptio
         samples.append({k: r.get(k) for k in
                         ("id", "engine", "status", "what", "functions", "bounds", "checks",
                          "cover", "solver_s", "detail") if r.get(k) is not None})
+    known = [r for r in results if r["status"] == "known"]
     cov = {
-        "obligations": len(results),
+        # obligations claimed by this run = everything that ran minus the recorded known findings (those are
+        # reported as KNOWN-FINDING lines and listed under known_findings_hit; they are NOT counted as discharged)
+        "obligations": len(results) - len(known),
         "discharged": len(holds),
         "evaluations": sum(int(r.get("queries", 1)) for r in results),
         "distinct_nontrivial": len(nontriv),
@@ -181,6 +184,9 @@ def write_evidence(prop, tier, level, results, wall_s, extra_cov=None, assumptio
         ],
         "exhaustive": False,
         "bounded": True,
+        "explanation": "bounded solver-decided obligations over the real code (Kani/CBMC harnesses, z3 queries over MIR path "
+                       "summaries, z3 interleaving queries); every obligation holds for ALL values inside its stated bound; "
+                       "the step to the property over all histories/schedules is the informal composition of DESIGN.md section 2",
         "solver_s": round(sum(float(r.get("solver_s") or 0) for r in results), 3),
         "functions_encoded": sorted({f for r in results for f in (r.get("functions") or [])}),
         "engines": sorted({r["engine"] for r in results}),
